@@ -61,6 +61,10 @@ func TestGocvReplayC19(t *testing.T) {
 				t.Fatal(err)
 			}
 		}
+		// repeated prunes: a lower height first, then the height under test
+		if pruneH >= 3 {
+			gocvNoPanic("PruneBlocks(2)", &fails, func() { cm.PruneBlocks(2) })
+		}
 		gocvNoPanic(fmt.Sprintf("PruneBlocks(%d)", pruneH), &fails, func() { cm.PruneBlocks(pruneH) })
 		if only == "" || only == "prune" {
 			for h := uint64(0); h <= tipH; h++ {
